@@ -7,10 +7,11 @@
 (* specification always takes its own step for the logged operation and     *)
 (* evaluates the observation predicates; every event whose observation the  *)
 (* specification does not allow is appended, with the set of failed tags    *)
-(* ("Cxx:what"), to TLC register 1.  After the first flagged event of a run *)
-(* the rest of that run is skipped (dead = TRUE until the next "new"        *)
-(* event), so one divergence is reported once and later runs in the same    *)
-(* file are still examined.  The POSTCONDITION prints the register and the  *)
+(* (<<"Cxx", "what">>), to TLC register 1.  Within one run (from a "new"    *)
+(* event to the next) only the first flagged event of each PROPERTY is      *)
+(* reported (dead = set of properties already reported in this run), so one *)
+(* divergence is reported once per property and later runs in the same file *)
+(* are still examined.  The POSTCONDITION prints the register and the  *)
 (* number of events consumed; the orchestrator (bin/check) turns flagged    *)
 (* events into VIOLATION lines.  Must run with -workers 1.                  *)
 (***************************************************************************)
@@ -42,6 +43,11 @@ NaNKey == 2147483647   \* how a NaN observation is logged (outside the range of 
 Near(a, ref, d) == ref - d <= a /\ a <= ref + d
 
 Cmp(a, b) == IF a > b THEN 1 ELSE IF a < b THEN -1 ELSE 0
+
+\* tags are <<property, what>>; `dead` is the set of properties already reported in the current run
+\* ("ALL": nothing more is reported in this run)
+PropsOf(tags) == {t[1] : t \in tags}
+LiveTags(tags, dead) == IF "ALL" \in dead THEN {} ELSE {t \in tags : t[1] \notin dead}
 
 Abs(x) == IF x < 0 THEN -x ELSE x
 Max2(a, b) == IF a >= b THEN a ELSE b
